@@ -273,7 +273,25 @@ func (p *paymentSession) RequestRoute(maxAmt, feeLimit lnwire.MilliSatoshi,
 	// We need to subtract the final delta before passing it into path
 	// finding. The optimal path is independent of the final cltv delta and
 	// the path finding algorithm is unaware of this value.
-	cltvLimit := p.payment.CltvLimit - uint32(finalCltvDelta)
+	cltvReserve := uint32(finalCltvDelta)
+
+	// For a payment to a blinded path, newRoute does not use the final
+	// delta above but the one of the blinded path set, which is the whole
+	// path's cltv delta if the path consists of an introduction node only.
+	// If that is the larger one, it is what must be kept free below the
+	// payment's cltv limit.
+	if pathSet := p.payment.BlindedPathSet; pathSet != nil {
+		blindedDelta := uint32(pathSet.FinalCLTVDelta())
+		if blindedDelta > cltvReserve {
+			if blindedDelta > p.payment.CltvLimit {
+				return nil, errNoPathFound
+			}
+
+			cltvReserve = blindedDelta
+		}
+	}
+
+	cltvLimit := p.payment.CltvLimit - cltvReserve
 
 	// TODO(roasbeef): sync logic amongst dist sys
 
